@@ -36,6 +36,7 @@ FilesAll == {
   [D EXCEPT !.fmt = "cmdfile", !.out = "file", !.sinkst = "absent"],
   [D EXCEPT !.fmt = "cmdfile", !.out = "stdout", !.dup = TRUE],
   [D EXCEPT !.fmt = "cmdfile", !.out = "devnull", !.dup = TRUE],
+  [D EXCEPT !.fmt = "cmdfile", !.out = "file", !.dsmax = "min", !.synerr = TRUE],
   [D EXCEPT !.state = "absent"], [D EXCEPT !.state = "unreadable"], [D EXCEPT !.state = "garbage"] }
 FilesSmall == {
   [D EXCEPT !.fmt = "cmdfile", !.out = "file"],
@@ -55,6 +56,26 @@ CallsAll == {Mk("execve", p, a, e) : p \in PathsAll, a \in ArgvsAll, e \in Envps
 CallsSmall == {Mk("execve", "p_norm", "a_two", "e_one"), Mk("execv", "p_long", "a_huge", "e_none"),
                Mk("execve", "p_norm", "a_null", "e_null"), Mk("execv", "p_8bit", "a_one", "e_none"),
                Mk("execve", "p_empty", "a_emptystr", "e_empty")}
+FilesC06 == { [D EXCEPT !.fmt = "cmdfile", !.out = "file"], [D EXCEPT !.fmt = "cmd", !.out = "file"],
+              [D EXCEPT !.fmt = "cmdfile", !.out = "file", !.dsmax = "min"], [D EXCEPT !.state = "absent"] }
+CallsC06 == {Mk(k, p, a, IF k = "execve" THEN "e_one" ELSE "e_none") : k \in {"execv", "execve"}, p \in {"p_norm", "p_long"},
+             a \in {"a_huge", "a_one", "a_null", "a_empty", "a_emptystr", "a_two", "a_many"}}
+FilesC11 == {
+  [D EXCEPT !.fmt = "cmdfile", !.out = "file"],
+  [D EXCEPT !.fmt = "cmdfile", !.out = "file", !.dsmax = "min"],
+  [D EXCEPT !.fmt = "cmdfile", !.out = "file", !.logmax = "min"],
+  [D EXCEPT !.fmt = "cmdfile", !.out = "file", !.logmax = "min", !.errlog = "yes"],
+  [D EXCEPT !.fmt = "cmdfile", !.out = "devlog", !.fac = "local3", !.lvl = "debug", !.ident = "static"],
+  [D EXCEPT !.fmt = "cmdfile", !.out = "devlog"],
+  [D EXCEPT !.fmt = "cmdfile", !.out = "file", !.chain = "drop"],
+  [D EXCEPT !.fmt = "cmdfile", !.out = "stdout", !.dup = TRUE],
+  [D EXCEPT !.fmt = "static",  !.out = "socket"],
+  [D EXCEPT !.fmt = "cmdfile", !.out = "file", !.dsmax = "min", !.logmax = "min", !.errlog = "yes", !.synerr = TRUE],
+  [D EXCEPT !.fmt = "cmdfile", !.out = "devlog", !.fac = "mail", !.lvl = "crit", !.synerr = TRUE],
+  [D EXCEPT !.state = "absent"], [D EXCEPT !.state = "garbage"], [D EXCEPT !.state = "unreadable"] }
+CallsC11 == {Mk("execve", "p_norm", "a_huge", "e_one"), Mk("execv", "p_norm", "a_one", "e_none"),
+             Mk("execve", "p_long", "a_null", "e_null"), Mk("execv", "p_norm", "a_two", "e_none")}
+ResultsFail == {"ENOENT"}
 ResultsAll == {"replaced", "ENOENT", "EACCES", "E2BIG", "ENOEXEC", "ENOMEM", "ETXTBSY"}
 ResultsSmall == {"replaced", "ENOENT"}
 NoDefects == {}
